@@ -1691,3 +1691,119 @@ package decimal128
 //@ ensures isinf(o) && !special(d) && coef(d) != 0 && cmpmag(coef(d), bexp(d), 1, 6176) == 0 - 1 ==> ite(sign(o), RisInf, RisZero)
 //@ limit before "oSig, oExp := o.decompose()"
 //@ props C18 C15 C20
+
+// ---------------------------------------------------------------------------------------------
+// Text parser (C05, C13). The documented number syntax is specified as a finite automaton run
+// over the input: pst(d, n) is the state after the first n bytes, usc(d, n) tells whether an
+// underscore occurred among them. States: 0 start, 1 integer digits, 2 '_' after an integer digit,
+// 3 '.' with no digit yet, 4 '.' after integer digits, 5 fraction digits, 6 '_' after a fraction
+// digit, 7 'e'/'E', 8 exponent sign, 9 exponent digits, 10 '_' after an exponent digit, 11 reject.
+// Accepting: 1, 4, 5, 9 ("12", "12.", "1.5", ".5", "1e5", "1_000.000_1e+1_0").
+// The value of an accepted numeral is dv x 10^(+-ev - nfd): dv the integer spelled by the mantissa
+// digits, nfd the number of digits after the '.', ev the integer spelled by the exponent digits,
+// esg = 1 for a '-' exponent sign. pw10(d, n) = 10^n (the sequence argument is unused).
+//@ fold pst
+//@ define DIG = (c >= 48 && c <= 57)
+//@ define ISE = (c == 101 || c == 69)
+//@ init 0
+//@ step ite(acc == 0, ite(DIG, 1, ite(c == 46, 3, 11)),
+//@      ite(acc == 1, ite(DIG, 1, ite(c == 95, 2, ite(c == 46, 4, ite(ISE, 7, 11)))),
+//@      ite(acc == 2, ite(DIG, 1, 11),
+//@      ite(acc == 3, ite(DIG, 5, 11),
+//@      ite(acc == 4, ite(DIG, 5, ite(ISE, 7, 11)),
+//@      ite(acc == 5, ite(DIG, 5, ite(c == 95, 6, ite(ISE, 7, 11))),
+//@      ite(acc == 6, ite(DIG, 5, 11),
+//@      ite(acc == 7, ite(DIG, 9, ite(c == 43 || c == 45, 8, 11)),
+//@      ite(acc == 8, ite(DIG, 9, 11),
+//@      ite(acc == 9, ite(DIG, 9, ite(c == 95, 10, 11)),
+//@      ite(acc == 10, ite(DIG, 9, 11), 11)))))))))))
+//@ fold usc
+//@ init 0
+//@ step ite(acc == 1 || c == 95, 1, 0)
+//@ fold dv
+//@ init 0
+//@ step ite(c >= 48 && c <= 57 && pst <= 6, acc * 10 + (c - 48), acc)
+//@ fold nfd
+//@ init 0
+//@ step ite(c >= 48 && c <= 57 && pst >= 3 && pst <= 6, acc + 1, acc)
+//@ fold ev
+//@ init 0
+//@ step ite(c >= 48 && c <= 57 && pst >= 7 && pst <= 10, acc * 10 + (c - 48), acc)
+//@ fold esg
+//@ init 0
+//@ step ite(c == 45 && pst == 7, 1, acc)
+//@ fold pw10
+//@ init 1
+//@ step acc * 10
+
+// the reject state is absorbing, an underscore once seen stays seen (induction over the prefix length)
+//@ lemma pst_absorbing
+//@ forall a bytes, n int, m int
+//@ induct m from n
+//@ hyp 0 <= n && n <= m
+//@ holds pst(a, n) == 11 ==> pst(a, m) == 11
+//@ props C05 C13
+//@ lemma usc_sticky
+//@ forall a bytes, n int, m int
+//@ induct m from n
+//@ hyp 0 <= n && n <= m
+//@ holds usc(a, n) == 1 ==> usc(a, m) == 1
+//@ props C05 C13
+//@ lemma pw10_pos
+//@ forall a bytes, n int
+//@ induct n from 0
+//@ hyp 0 <= n
+//@ holds pw10(a, n) >= 1
+//@ props C05 C13
+// V / 10^(e+n) x 10^n = V / 10^e
+//@ lemma rs_pw10
+//@ forall a bytes, V real, e int, n int
+//@ induct n from 0
+//@ hyp 0 <= n
+//@ holds rs(V, e + n) * real(pw10(a, n)) == rs(V, e)
+//@ props C05 C13
+
+//@ func parseNumber[string]
+//@ returns (v, err)
+//@ logical V real
+//@ define ST = pst(d, i)
+//@ define FLAGS = ST != 11 && caneof == (ST == 1 || ST == 3 || ST == 4 || ST == 5 || ST == 9) && cansep == (ST == 1 || ST == 5 || ST == 9) && cansgn == (ST == 7) && sawdig == (ST != 0 && ST != 3) && sawexp == (ST >= 7) && (ST <= 6 ==> sawdot == (ST >= 3)) && (sepallowed || usc(d, i) == 0)
+//@ define ACCEPT = ((pst(d, len(d)) == 1 || pst(d, len(d)) == 4 || pst(d, len(d)) == 5 || pst(d, len(d)) == 9) && (sepallowed || usc(d, len(d)) == 0))
+//@ define EXPO = (ite(esg(d, len(d)) == 1, 0 - ev(d, len(d)), ev(d, len(d))) - nfd(d, len(d)))
+//@ define SYNTAX = (tag(err) == typetag("parseNumberSyntaxError"))
+//@ define RANGE = (tag(err) == typetag("parseNumberRangeError"))
+//@ requires len(d) <= 1099511627776 && DefaultRoundingMode <= 5
+//@ requires ACCEPT ==> V >= 0 && rs(V, 6176 + EXPO) == real(dv(d, len(d)))
+//@ ensures SYNTAX <==> !ACCEPT
+//@ ensures tag(err) == 0 || SYNTAX || RANGE
+//@ ensures SYNTAX ==> lo(v) == 0 && hi(v) == 0
+//@ ensures !SYNTAX ==> (RANGE <==> isinf(v)) && !isnan(v)
+//@ ensures !SYNTAX && isinf(v) ==> sign(v) == neg && lo(v) == 0 && Ovf(DefaultRoundingMode, neg, rs(V, 12287))
+//@ ensures tag(err) == 0 ==> !special(v) && sign(v) == neg
+//@ ensures tag(err) == 0 && dv(d, len(d)) == 0 ==> coef(v) == 0
+//@ ensures tag(err) == 0 && dv(d, len(d)) != 0 ==> (rs(V, 0) < 0.1 && coef(v) == 0) || (rs(V, 0) >= 0.1 && RndOK(DefaultRoundingMode, neg, rs(V, bexp(v)), coef(v), bexp(v)))
+//@ loop 1: invariant 0 <= i && i <= l && l == len(d) && FLAGS && trunc == 0 && !eneg
+//@ loop 1: invariant sig64 == dv(d, i) && nfrac == nfd(d, i) && 0 <= nfrac && nfrac <= i && ev(d, i) == 0 && esg(d, i) == 0
+//@ loop 1: decreases l - i
+//@ define ND = (nfd(d, i) - nfrac)
+//@ loop 2: invariant 0 <= i && i <= l && l == len(d) && FLAGS && (trunc == 0 || trunc == 1) && eneg == (esg(d, i) == 1)
+//@ loop 2: invariant 0 - i <= nfrac && nfrac <= i && 0 <= nfd(d, i) && nfd(d, i) <= i && ND >= 0 && ND <= i
+//@ loop 2: invariant 0 <= exp && exp <= ev(d, i) && (exp == ev(d, i) || exp >= 100000000000000000) && exp < 1000000000000000010 && (ST <= 6 ==> ev(d, i) == 0 && esg(d, i) == 0)
+//@ loop 2: invariant (ND == 0 && u128(sig) == dv(d, i) && trunc == 0) || (ND >= 1 && sig[1] > 0x18ffffffffffffff && pw10(d, ND) >= 1 && u128(sig) * pw10(d, ND) <= dv(d, i) && dv(d, i) <= (u128(sig) + 1) * pw10(d, ND) - 1 && ((trunc == 0) == (dv(d, i) == u128(sig) * pw10(d, ND))))
+//@ loop 2: decreases l - i
+//@ apply before "return Decimal{}, parseNumberSyntaxError{}"#1: pst_absorbing(d, i + 1, len(d))
+//@ apply before "return Decimal{}, parseNumberSyntaxError{}"#2: pst_absorbing(d, i + 1, len(d))
+//@ apply before "return Decimal{}, parseNumberSyntaxError{}"#3: pst_absorbing(d, i + 1, len(d))
+//@ apply before "return Decimal{}, parseNumberSyntaxError{}"#4: pst_absorbing(d, i + 1, len(d))
+//@ apply before "return Decimal{}, parseNumberSyntaxError{}"#5: pst_absorbing(d, i + 1, len(d))
+//@ apply before "return Decimal{}, parseNumberSyntaxError{}"#6: pst_absorbing(d, i + 1, len(d))
+//@ apply before "return Decimal{}, parseNumberSyntaxError{}"#7: pst_absorbing(d, i + 1, len(d))
+//@ apply before "return Decimal{}, parseNumberSyntaxError{}"#8: pst_absorbing(d, i + 1, len(d))
+//@ apply before "return Decimal{}, parseNumberSyntaxError{}"#9: pst_absorbing(d, i + 1, len(d))
+//@ apply before "return Decimal{}, parseNumberSyntaxError{}"#10: pst_absorbing(d, i + 1, len(d))
+//@ apply before "return Decimal{}, parseNumberSyntaxError{}"#3: usc_sticky(d, i + 1, len(d))
+//@ apply before "return Decimal{}, parseNumberSyntaxError{}"#8: usc_sticky(d, i + 1, len(d))
+//@ apply before "if !caneof || !sawdig {": rs_pw10(d, V, 6176 + EXPO, nfd(d, len(d)) - nfrac)
+//@ call RoundingMode.reduce128#1: V = V
+//@ props C05 C13 C20
+//@ alias parseNumber[[]byte] = parseNumber[string]
